@@ -477,6 +477,8 @@ func init() {
 			switch {
 			case fam == 5:
 				c09BoundarySweep(c, r)
+			case fam == 6:
+				c09SkipSweep(c, r)
 			case fam < 5:
 				// documents x destination types x chunkings
 				var doc []byte
@@ -670,6 +672,87 @@ func c09BoundarySweep(c *rt.Ctx, r *rand.Rand) {
 		c.Sample(map[string]any{"family": "buffer-boundary sweep", "fields": nf + 1, "mutation": mut, "tail": string(tail[:minInt(len(tail), 160)]), "positions": sub})
 	}
 }
+
+type c09SkipDst struct {
+	A int
+	B string
+	N struct {
+		A int
+		C []struct{ A int }
+	}
+}
+
+// c09SkipValues: values the decoder has to step over (unknown members): every escape class at the
+// start, middle and end of a string, number forms, literals, containers holding those.
+func c09SkipValues() []string {
+	q, b := `\"`, `\\`
+	vals := []string{`""`, `"a"`, `"` + q + `"`, `"a` + q + `b"`, `"` + q + q + `"`, `"` + b + `"`, `"` + b + b + `"`, `"x` + b + q + `y"`, `"` + b + `"`, `"` + q + b + `"`,
+		`"\/"`, `"\n\t"`, `"é"`, `"😀"`, `"` + bsU("00e9") + `"`, `"` + bsU("d83d") + bsU("de00") + `"`, `"a` + bsU("0022") + `"`, `"` + bsU("005c") + `"`,
+		`0`, `-0`, `12`, `-12.5e+3`, `1E9`, `0.001`, `true`, `false`, `null`, `[]`, `{}`, `[1]`, `[ ]`, `{ }`,
+		`["a` + q + `b",1,{"k":"` + b + `"}]`, `{"a":"` + q + `","b":[1,2,{"c":"` + b + q + `"}]}`, `[[[["` + b + `"]]]]`, `{"` + q + `":1}`, `{"k` + b + `":"v"}`,
+		`[true,false,null,-1.5]`, `{"x":{"y":{"z":[{},[]]}}}`, `["` + b + `","` + q + `"]`}
+	return vals
+}
+
+func bsU(hex string) string { return "\\" + "u" + hex }
+
+// c09SkipSweep: documents for a struct destination with one member the destination does not have,
+// at every position (first, middle, last, in a nested struct, in an element of a slice of structs),
+// its value drawn from c09SkipValues or generated; every single cut and small fixed chunk sizes.
+func c09SkipSweep(c *rt.Ctx, r *rand.Rand) {
+	vals := c09SkipValues()
+	t := reflect.TypeOf(c09SkipDst{})
+	for k := 0; k < 12; k++ {
+		var val string
+		if k < 8 {
+			val = vals[(c.Idx/8*8+k)%len(vals)]
+		} else {
+			val = string(bytes.TrimSpace(gen.Doc(r, 2)))
+		}
+		w1, w2 := wsPick(r), wsPick(r)
+		unk := `"zz":` + w1 + val + w2
+		var doc string
+		switch (c.Idx/8 + k) % 6 {
+		case 0:
+			doc = `{` + unk + `,"A":1,"B":"x"}`
+		case 1:
+			doc = `{"A":1,` + unk + `,"B":"x"}`
+		case 2:
+			doc = `{"A":1,"B":"x",` + unk + `}`
+		case 3:
+			doc = `{"A":1,"N":{` + unk + `,"A":2},"B":"x"}`
+		case 4:
+			doc = `{"N":{"C":[{"A":3,` + unk + `},{` + unk + `,"A":4}]},"B":"x"}`
+		default:
+			doc = `{` + unk + `,` + unk + `,"B":"x"}`
+		}
+		d := []byte(doc)
+		valid := oracle.Recognise(d, 0)
+		var tree *oracle.Node
+		if valid {
+			tree, _ = oracle.Parse(d)
+		}
+		if !c.Cur(k, "shapes=core\ntype: "+t.String()+"\ndoc: "+doc) {
+			continue
+		}
+		sub := k * 1000
+		for cut := 1; cut < len(d); cut++ {
+			compareStreamBuffer(c, sub, d, tree, valid, t, &chunkReader{data: d, cuts: []int{cut}, failAt: -1}, "single-cut", cut)
+			sub++
+		}
+		for size := 1; size <= 4; size++ {
+			compareStreamBuffer(c, sub, d, tree, valid, t, &chunkReader{data: d, cuts: fixedCuts(len(d), size), failAt: -1}, fmt.Sprintf("fixed=%d", size), -1)
+			sub++
+		}
+		c.NonTrivial("skip-sweep", doc)
+		c.Obs("skip_sweep_documents", 1)
+	}
+	if c.Idx%64 == 6 {
+		c.Sample(map[string]any{"family": "skipped-member sweep", "catalogue": len(vals), "documents": 12})
+	}
+}
+
+func wsPick(r *rand.Rand) string { return []string{"", "", " ", "\n", "  "}[r.Intn(5)] }
 
 func minInt(a, b int) int {
 	if a < b {
